@@ -248,6 +248,98 @@ func checkC17(c *Ctx) {
 			})
 		}
 	}
+	// map form: handlers in a package-level map keyed by the message type, looked up with the comma-ok form (a missing
+	// key then selects the default instead of a nil function)
+	if len(arms) == 0 {
+		var lk *ssa.Lookup
+		var mapG *ssa.Global
+		for _, sf := range p.FuncsIn(hrPkg) {
+			if p.isTestFn(sf) || sf.Name() == "init" {
+				continue
+			}
+			eachInstr(sf, func(_ *ssa.BasicBlock, _ int, in ssa.Instruction) {
+				l, ok := in.(*ssa.Lookup)
+				if !ok {
+					return
+				}
+				mt, ok := l.X.Type().Underlying().(*types.Map)
+				if !ok || types.TypeString(mt.Key(), nil) != modPath+"/"+hrPkg+".messageType" {
+					return
+				}
+				if _, isSig := mt.Elem().Underlying().(*types.Signature); !isSig {
+					return
+				}
+				if ld, ok := l.X.(*ssa.UnOp); ok && ld.Op == token.MUL {
+					if g, ok := ld.X.(*ssa.Global); ok {
+						lk, mapG = l, g
+					}
+				}
+			})
+		}
+		if lk != nil {
+			for _, sf := range p.FuncsIn(hrPkg) {
+				if sf.Name() != "init" {
+					continue
+				}
+				// the map value stored into the global, and its updates
+				var mk ssa.Value
+				eachInstr(sf, func(_ *ssa.BasicBlock, _ int, in ssa.Instruction) {
+					if st, ok := in.(*ssa.Store); ok && st.Addr == ssa.Value(mapG) {
+						mk = st.Val
+					}
+				})
+				eachInstr(sf, func(_ *ssa.BasicBlock, _ int, in ssa.Instruction) {
+					mu, ok := in.(*ssa.MapUpdate)
+					if !ok || mk == nil || mu.Map != mk {
+						return
+					}
+					if k, isC := constInt(mu.Key); isC {
+						if fn := boundTarget(mu.Value); fn != nil {
+							arms = append(arms, arm{k, fn})
+						}
+					}
+				})
+			}
+			// no other writer of the table
+			for _, sf := range p.FuncsIn(hrPkg) {
+				if sf.Name() == "init" || p.isTestFn(sf) {
+					continue
+				}
+				eachInstr(sf, func(_ *ssa.BasicBlock, _ int, in ssa.Instruction) {
+					if mu, ok := in.(*ssa.MapUpdate); ok {
+						if ld, ok := mu.Map.(*ssa.UnOp); ok && ld.X == ssa.Value(mapG) {
+							c.Fail("R1", "handler table written only at initialisation", mu.Pos(), "the handler table is modified at run time")
+						}
+					}
+				})
+			}
+			c.Check(lk.CommaOk, "R1", "handler table lookup tests presence", lk.Pos(), "comma-ok lookup", "the handler table is read without testing presence: an unknown request type yields a nil handler and crashes the old process")
+			fnOf := lk.Parent()
+			pick := func(v ssa.Value) {
+				if _, isSig := v.Type().Underlying().(*types.Signature); !isSig {
+					return
+				}
+				if _, isEx := v.(*ssa.Extract); isEx {
+					return
+				}
+				if fn := boundTarget(v); fn != nil {
+					defaultFn = fn
+				}
+			}
+			eachInstr(fnOf, func(_ *ssa.BasicBlock, _ int, in ssa.Instruction) {
+				switch x := in.(type) {
+				case *ssa.Phi:
+					for _, e := range x.Edges {
+						pick(e)
+					}
+				case *ssa.Return:
+					for _, r := range x.Results {
+						pick(r)
+					}
+				}
+			})
+		}
+	}
 	if handleCall == nil || len(arms) == 0 {
 		c.Undecided("R1", "request switch", hc.Pos(), "cannot recover the request dispatch (a switch on the message type, or a handler table indexed by it, called through a variable)")
 	}
